@@ -4,6 +4,8 @@ import (
 	"encoding/binary"
 	"encoding/json"
 	"fmt"
+	"net/http"
+	"net/http/httptest"
 	"os"
 	"sort"
 	"strings"
@@ -12,6 +14,7 @@ import (
 	"time"
 
 	"github.com/openebs/jiva/controller"
+	crest "github.com/openebs/jiva/controller/rest"
 	"github.com/openebs/jiva/types"
 
 	"verif/harness/internal/reng"
@@ -58,6 +61,7 @@ type World struct {
 	AckLog  []uint32
 	NextWID uint32
 	attachA map[*Conn]int // index into AckLog at attach time
+	rest    http.Handler  // the controller's management API (what an operator or the CSI driver sees)
 
 	ipA, ipB, ipN  int
 	notes          []string
@@ -308,6 +312,25 @@ func (w *World) CheckSettled(after string) {
 	if strings.Join(expR, ",") != strings.Join(st.Readers, ",") {
 		collect("C18", "reader-set-differs:"+after, fmt.Sprintf("readers %v, RW replicas %v", st.Readers, expR))
 	}
+	// what the management API reports is what the controller holds: readOnly (C03), the replica list and modes (C18)
+	if ro, reps, ok := w.restView(); ok {
+		w.Res.Count("rest_views_compared", 1)
+		if ro != st.ReadOnly {
+			collect("C03", "rest-readonly-differs:"+after, fmt.Sprintf("GET /v1/volumes reports readOnly=%v, the controller holds ReadOnly=%v: %s", ro, st.ReadOnly, digest(st, true)))
+		}
+		var a, b []string
+		for _, r := range st.Replicas {
+			a = append(a, r.Address+"="+string(r.Mode))
+		}
+		for addr, m := range reps {
+			b = append(b, addr+"="+m)
+		}
+		sort.Strings(a)
+		sort.Strings(b)
+		if strings.Join(a, ",") != strings.Join(b, ",") {
+			collect("C18", "rest-replica-list-differs:"+after, fmt.Sprintf("GET /v1/replicas reports %v, the controller holds %v", b, a))
+		}
+	}
 	// a detached replica receives no further calls
 	for _, f := range w.Order {
 		f.mu.Lock()
@@ -360,6 +383,41 @@ func (w *World) CheckSettled(after string) {
 		w.Res.Count("checkpoint_withdrawals", 1)
 	}
 	w.lastCheckpoint = st.Checkpoint
+}
+
+// restView asks the controller's own REST router (in-process) for the volume's
+// readOnly field and the replica list.
+func (w *World) restView() (bool, map[string]string, bool) {
+	if w.rest == nil {
+		w.rest = crest.NewRouter(crest.NewServer(w.C))
+	}
+	get := func(path string, into interface{}) bool {
+		rec := httptest.NewRecorder()
+		w.rest.ServeHTTP(rec, httptest.NewRequest("GET", path, nil))
+		return rec.Code == 200 && json.Unmarshal(rec.Body.Bytes(), into) == nil
+	}
+	var vols struct {
+		Data []struct {
+			ReadOnly string `json:"readOnly"`
+		} `json:"data"`
+	}
+	var reps struct {
+		Data []struct {
+			Address string `json:"address"`
+			Mode    string `json:"mode"`
+		} `json:"data"`
+	}
+	if !get("/v1/volumes", &vols) || len(vols.Data) != 1 || !get("/v1/replicas", &reps) {
+		return false, nil, false
+	}
+	m := map[string]string{}
+	for _, r := range reps.Data {
+		m[r.Address] = r.Mode
+	}
+	if len(m) != len(reps.Data) {
+		m["<duplicate address in GET /v1/replicas>"] = "?"
+	}
+	return vols.Data[0].ReadOnly == "true", m, true
 }
 
 // ---------------------------------------------------------------- data model
